@@ -148,7 +148,14 @@ func runDownFamily(s *Sim, prop string) {
 				acts = append(acts, Action{Name: fmt.Sprintf("emit-meta d%d", i), W: 2, Do: func() { dc.emitMeta(h) }})
 			}
 			if s.Idle(rt) {
-				acts = append(acts, Action{Name: fmt.Sprintf("read d%d", i), W: 9, Do: func() { s.Start(rt, y.readOp(h)) }})
+				acts = append(acts, Action{Name: fmt.Sprintf("read d%d", i), W: 9, Do: func() {
+				op := y.readOp(h)
+				if t.Bool("read-with-ended-context", 1, 8) {
+					op.CtxKind = "expired" // returns an error or the next chunk, never disturbs the order
+					s.Stat("env.read-with-ended-context")
+				}
+				s.Start(rt, op)
+			}})
 			}
 			if s.Idle(mt) {
 				acts = append(acts, Action{Name: fmt.Sprintf("read-meta d%d", i), W: 2, Do: func() { s.Start(mt, y.readMetaOp(h)) }})
